@@ -2,10 +2,12 @@ package syntax
 
 import (
 	"context"
+	"fmt"
 	"io"
 	"os"
 	"path"
 	"path/filepath"
+	"strings"
 	"text/scanner"
 
 	"github.com/sboehler/knut/lib/common/cpr"
@@ -81,7 +83,7 @@ func ParseFileRecursively(file string) (<-chan directives.File, func(context.Con
 	return cpr.Produce(func(ctx context.Context, ch chan<- directives.File) error {
 		wg, ctx := errgroup.WithContext(ctx)
 		wg.Go(func() error {
-			res, err := parseRec(ctx, wg, ch, file)
+			res, err := parseRec(ctx, wg, ch, file, nil)
 			if err != nil {
 				return err
 			}
@@ -97,7 +99,17 @@ type Result struct {
 	Err  error
 }
 
-func parseRec(ctx context.Context, wg *errgroup.Group, resCh chan<- directives.File, file string) (directives.File, error) {
+// parseRec parses file and, concurrently, the files it includes. ancestors is the chain of
+// files whose include directives led to file: a file which includes itself, directly or
+// through other files, is an error (the recursion would never end).
+func parseRec(ctx context.Context, wg *errgroup.Group, resCh chan<- directives.File, file string, ancestors []string) (directives.File, error) {
+	key := filepath.Clean(file)
+	chain := append(append(make([]string, 0, len(ancestors)+1), ancestors...), key)
+	for _, a := range ancestors {
+		if a == key {
+			return directives.File{}, fmt.Errorf("include cycle: %s", strings.Join(chain, " -> "))
+		}
+	}
 	text, err := os.ReadFile(file)
 	if err != nil {
 		return directives.File{}, err
@@ -110,7 +122,7 @@ func parseRec(ctx context.Context, wg *errgroup.Group, resCh chan<- directives.F
 		if inc, ok := d.Directive.(directives.Include); ok {
 			file := path.Join(filepath.Dir(file), inc.IncludePath.Content.Extract())
 			wg.Go(func() error {
-				res, err := parseRec(ctx, wg, resCh, file)
+				res, err := parseRec(ctx, wg, resCh, file, chain)
 				if err != nil {
 					return err
 				}
